@@ -44,3 +44,4 @@ pub mod hist;
 pub mod hrun;
 
 pub mod cli;
+pub mod fz;
